@@ -29,4 +29,5 @@ props! {
     "C07" => c07,
     "C08" => c08,
     "C09" => c09,
+    "C10" => c10,
 }
